@@ -6,5 +6,6 @@ CONSTANTS
 INVARIANTS
   Sane
   DefsAgree
+  NestedSane
   Emit
 CHECK_DEADLOCK FALSE
